@@ -241,8 +241,6 @@ def main():
              'kind_free_text': 'the real WNTRSimulator.run_sim executed on proxies with only the Newton solve replaced by a policy stub (contract H)'},
             {'name': 'cxxsym', 'path': 'vf/cxxsym.py', 'serves_properties': sorted(p for p in CLAIMED if 'cxxsym' in CLAIMED[p]['engine']),
              'kind_free_text': 'interpreter of evaluator.cpp over clang\'s JSON AST with symbolic doubles (std containers, new/delete and iterators modelled)'},
-            {'name': 'crosshair', 'path': 'vf/ch', 'serves_properties': sorted(p for p in CLAIMED if 'crosshair' in CLAIMED[p]['engine']),
-             'kind_free_text': 'CrossHair (symbolic execution of Python with z3) on integer code and edit histories'},
         ],
         'checks': checks,
         'not_applicable': na,
